@@ -625,7 +625,7 @@ theorem updateAttr_safe (X : Ctx) (hX : NoClassDnc X) (hM : MakeSafe n₀ W X) (
     (v : Ref) (kw : List (Nat × Ref)) (inplace : Bool)
     (hs : inplace = true → Writable n₀ W self) :
     Safe n₀ W (updateAttr X self a v kw inplace) (fun _ => True) := by
-  unfold updateAttr
+  rw [updateAttr_eq_core hX]; unfold updateAttrCore
   refine (getInst_safe self).bind (fun p _ => ?_)
   split
   · exact Safe.throwPy _
@@ -638,7 +638,7 @@ theorem transformAttr_safe (X : Ctx) (hX : NoClassDnc X) (hM : MakeSafe n₀ W X
     (a : Nat) (f : Option Cb) (kwf : List (Nat × Cb)) (inplace : Bool)
     (hs : inplace = true → Writable n₀ W self) :
     Safe n₀ W (transformAttr X self a f kwf inplace) (fun _ => True) := by
-  unfold transformAttr
+  rw [transformAttr_eq_core hX]; unfold transformAttrCore
   refine (getInst_safe self).bind (fun p _ => ?_)
   split
   · exact Safe.throwPy _
